@@ -12,7 +12,8 @@ from .. import gen_replace_c06 as g
 KINDS = g.KINDS
 KNOWN_TAG = "pair-coeffs-structure-without-table"
 ORPHAN_TAG = "orphan-coefficient-table"
-KNOWN_TAGS = (KNOWN_TAG, ORPHAN_TAG)
+OVERLAP_TAG = "retained-atom-removed-by-another-match"
+KNOWN_TAGS = (KNOWN_TAG, ORPHAN_TAG, OVERLAP_TAG)
 DOCS = os.path.join(core.REPO, "docs", "examples")
 CORPUS = os.path.join(core.VERIF, "corpus", "C06")
 
@@ -25,9 +26,12 @@ RULE = ("cases: (a) synthetic — a periodic structure with 1–4 planted copies
         "(both pair tables present); in ~30 % a same-element pattern atom NUDGED by 1e-4…0.09 Å from a non-kept search "
         "atom (not shared by the documented rule: matched atom removed, pattern atom inserted) carrying pattern terms, with "
         "original terms attached to the matched atom; per term kind one of the 11 compatible table "
-        "combinations (all of them for every kind in the thorough tier); replace_all, replace_fraction; (b) chains — a "
+        "combinations (all of them for every kind in the thorough tier); replace_all, replace_fraction in {0, .1, .25, .34, .5, .75, .9, 1, 1.5}, ignore flag on/off; (b) chains — a "
         "second replacement (search = geometry of the first replacement pattern) applied to the result of the first; "
-        "(c) the documented workflow on docs/examples (uio66.cif, atom types but no pair table, metal centre then linker, "
+        "(c) tagged streams for the three known findings: orphan coefficient table, zero replaced matches (fraction 0 / "
+        "pattern absent: the type tables are extended all the same), chains and stars of one element whose neighbouring "
+        "occurrences overlap so that one match retains an atom another removes, or retain it in different roles; "
+        "(d) the documented workflow on docs/examples (uio66.cif, atom types but no pair table, metal centre then linker, "
         "parameterised patterns). Oracle on the in-memory result, on the LAMMPS file written by save_lmpdat and read by "
         "an independent reader, and on that file re-loaded by load_lmpdat. Non-trivial = distinct input with >= 1 "
         "replaced match, a pattern term checked, an original term surviving and an original term removed or overridden.")
@@ -265,20 +269,50 @@ def oracle(case, used, view):
 
     # --- atoms taken over from the pattern
     pclause = pair_clause(sj, rj)
-    # overlapping matches may retain the same structure atom in two different roles; when the pattern types of the
-    # roles differ the clause cannot hold for both matches: not decidable, counted as ambiguous (like terms below)
+    # known finding C06-retained-atom-removed-by-another-match (the overlap test of the code looks at removals only):
+    #  * STOLEN: an atom that match k retains is removed by another selected match -> it is gone, its payload and every
+    #    pattern term of match k through it are missing;
+    #  * CONTESTED: overlapping matches retain the same atom in roles with different pattern types (or put different
+    #    terms on the same retained atoms) -> the last writer wins, the clause fails for the other match.
+    # Exactly these failures carry OVERLAP_TAG; everything else stays untagged.
     claims = {}
     for k in range(len(used)):
         for i, v in ident_s[k].items():
             claims.setdefault(v, set()).add(rj["atoms"][i]["ty"])
     contested = set(v for v, tys in claims.items() if len(tys) > 1)
     if contested:
-        stats["conflict"] = True
+        stats["contested"] = len(contested)
+
+    def stolen(k, i):
+        """pattern atom i of match k is identified with a structure atom that another selected match removes (and
+        that is indeed absent from the result)"""
+        v = ident_s[k].get(i)
+        return v is not None and v in removed and v not in where_s
     for k, m in enumerate(used):
         for i in range(nr):
             x = where(k, i)
-            if x is None or ident_s[k].get(i) in contested:
+            if x is None:
+                if stolen(k, i):
+                    stats["stolen"] = stats.get("stolen", 0) + 1
+                    fail("retained pattern atom is missing (payload missing): the atom its match retains is removed by "
+                         "another selected match", {"match": k, "pattern_atom": i, "structure_atom": ident_s[k][i]},
+                         tags=[OVERLAP_TAG])
                 continue
+            others = set()
+            if ident_s[k].get(i) in contested:
+                others = claims[ident_s[k][i]] - {rj["atoms"][i]["ty"]}
+
+            def otag(field, got):
+                """the value found is the one another overlapping match's role gives this atom"""
+                for t in others:
+                    tab = rj["types"][field]
+                    alt = tab[t] if t < len(tab) else None
+                    if field == "mass":
+                        if got is not None and alt is not None and abs(got - float(core.unq(alt))) <= 1e-5 * max(1.0, abs(got)):
+                            return [OVERLAP_TAG]
+                    elif norm(alt) == norm(got):
+                        return [OVERLAP_TAG]
+                return []
             a, ra = view.atoms[x], rj["atoms"][i]
             rt = ra["ty"]
             retained = i in ident_s[k]
@@ -286,44 +320,54 @@ def oracle(case, used, view):
             what = "retained" if retained else "inserted"
             if view.label.get(a["ty"]) != rj["types"]["label"][rt]:
                 fail("%s pattern atom does not carry the pattern's type label" % what,
-                     {"match": k, "pattern_atom": i, "got": view.label.get(a["ty"]), "want": rj["types"]["label"][rt]})
+                     {"match": k, "pattern_atom": i, "got": view.label.get(a["ty"]), "want": rj["types"]["label"][rt]},
+                     tags=otag("label", view.label.get(a["ty"])))
             if view.elem and view.elem.get(a["ty"]) != rj["types"]["elem"][rt]:
                 fail("%s pattern atom does not carry the pattern's element" % what,
-                     {"match": k, "pattern_atom": i, "got": view.elem.get(a["ty"]), "want": rj["types"]["elem"][rt]})
+                     {"match": k, "pattern_atom": i, "got": view.elem.get(a["ty"]), "want": rj["types"]["elem"][rt]},
+                     tags=otag("elem", view.elem.get(a["ty"])))
             wm = float(core.unq(rj["types"]["mass"][rt]))
             gm = view.mass.get(a["ty"])
             if gm is None or abs(gm - wm) > 1e-5 * max(1.0, abs(wm)):
                 fail("%s pattern atom does not carry the pattern's mass" % what,
-                     {"match": k, "pattern_atom": i, "got": gm, "want": wm})
+                     {"match": k, "pattern_atom": i, "got": gm, "want": wm}, tags=otag("mass", gm))
             if pclause != "skip":
                 wp = norm(rj["types"]["pair"][rt]) if rt < len(rj["types"]["pair"]) else None
                 gp = norm(view.pair.get(a["ty"]))
                 if gp != wp:
                     fail("%s pattern atom does not resolve to the pattern's pair coefficient" % what,
                          {"match": k, "pattern_atom": i, "type_id": a["ty"], "got": gp, "want": wp},
-                         tags=[KNOWN_TAG] if pclause == "known" else [])
+                         tags=[KNOWN_TAG] if pclause == "known" else otag("pair", view.pair.get(a["ty"])))
             if not retained:
                 if a["g"] != ra["g"]:
                     fail("inserted atom does not carry the pattern's group",
                          {"match": k, "pattern_atom": i, "got": a["g"], "want": ra["g"]})
+    if pclause == "known":
+        # identification of the known pair-coefficient finding also when NO atom is taken over (zero replaced matches:
+        # extend_types runs before the loop): an original atom, which had no pair coefficient, now resolves to one
+        taken = set(v for keep in ident_s for v in keep.values())
+        for i, x in sorted(where_s.items()):
+            if i not in taken and norm(view.pair.get(view.atoms[x]["ty"])) is not None:
+                fail("original atom of a structure WITHOUT pair table now resolves to a pair coefficient of the pattern",
+                     {"structure_atom": i, "type_id": view.atoms[x]["ty"], "got": norm(view.pair.get(view.atoms[x]["ty"]))},
+                     tags=[KNOWN_TAG])
+                break
     # --- terms: what must be there
     for kind in KINDS:
-        want_pat = {}          # key -> (text, match, tag)
-        conflict = False
+        want_pat = {}          # key -> [(text, match)] — several entries when overlapping matches sit on the same atoms
         for k, m in enumerate(used):
             for u in rj["terms"][kind]:
                 xs = [where(k, i) for i in u["a"]]
                 if any(x is None for x in xs):
-                    continue      # its atoms were already reported missing
+                    missing = [i for i, x in zip(u["a"], xs) if x is None]
+                    if all(stolen(k, i) for i in missing):
+                        stats["pattern_terms"] += 1
+                        fail("%s of the pattern is missing: one of its atoms is retained by its match and removed by "
+                             "another selected match" % kind, {"match": k, "pattern_atoms": u["a"]}, tags=[OVERLAP_TAG])
+                    continue      # otherwise its atoms were already reported missing
                 key = canon_key(xs)
-                txt = text_of(rj, kind, u["ty"])
-                if key in want_pat and want_pat[key][0] != txt:
-                    conflict = True     # two replaced matches define different terms on the same atoms: not decidable
-                want_pat[key] = (txt, k)
+                want_pat.setdefault(key, []).append((text_of(rj, kind, u["ty"]), k))
                 stats["pattern_terms"] += 1
-        if conflict:
-            stats["conflict"] = True
-            continue
         want_old = {}
         for t in sj["terms"][kind]:
             if set(t["a"]) & removed:
@@ -344,14 +388,23 @@ def oracle(case, used, view):
 
         def describe(key):
             return [list(ident.get(x, ("?", x))) for x in key]
-        for key, (txt, k) in want_pat.items():
+        for key, claims_t in want_pat.items():
             have = got.get(key, [])
+            texts = set(t for t, _ in claims_t)
             if len(have) != 1:
                 fail("%s of the pattern appears %d times (must be exactly once) between the corresponding atoms"
-                     % (kind, len(have)), {"match": k, "atoms": describe(key), "texts": have})
-            elif have[0] != txt:
+                     % (kind, len(have)), {"match": claims_t[0][1], "atoms": describe(key), "texts": have})
+            elif have[0] not in texts:
                 fail("%s of the pattern does not resolve to the pattern's coefficient text" % kind,
-                     {"match": k, "atoms": describe(key), "got": have[0], "want": txt})
+                     {"match": claims_t[0][1], "atoms": describe(key), "got": have[0], "want": sorted(map(str, texts))})
+            elif len(texts) > 1:
+                # overlapping matches define DIFFERENT terms on the same (retained) atoms: one writer wins
+                stats["contested_terms"] = stats.get("contested_terms", 0) + 1
+                for txt, k in claims_t:
+                    if txt != have[0]:
+                        fail("%s of the pattern does not resolve to the pattern's coefficient text: an overlapping "
+                             "selected match puts a different term on the same atoms" % kind,
+                             {"match": k, "atoms": describe(key), "got": have[0], "want": txt}, tags=[OVERLAP_TAG])
         for key, txts in want_old.items():
             have = got.get(key, [])
             if sorted(map(str, have)) != sorted(map(str, txts)):
@@ -525,8 +578,9 @@ class Batch:
             ctx.count("atoms-inserted", stats["inserted"])
             ctx.count("atoms-retained", stats["retained"])
             ctx.count("views", nviews)
-            if stats.get("conflict"):
-                ctx.ambiguous += 1
+            for c in ("stolen", "contested", "contested_terms"):
+                if stats.get(c):
+                    ctx.count("overlap:%s" % c, stats[c])
             if case["opts"].get("replace_all"):
                 ctx.count("replace_all")
             ctx.count("pair:%s" % pair_clause(case["s"], case["r"]))
@@ -638,6 +692,14 @@ def run(ctx, oracle_only=False):
     for i in range(north):
         batch.do(g.orphan_case(rng, KINDS[(start + i) % 4]))
         ctx.count("orphan-stream")
+        if i % 3 == 2 or i == north - 1:
+            # the same two table findings with ZERO replaced matches
+            batch.do(g.zero_match_case(rng, KINDS[(start + i) % 4]))
+            ctx.count("zero-match-stream")
+    # the known finding C06-retained-atom-removed-by-another-match: overlapping neighbouring occurrences
+    for i in range(ctx.n(6, 40)):
+        batch.do(g.overlap_case(rng))
+        ctx.count("overlap-stream")
     batch.flush()
     # every compatible combination for every kind (thorough: all; quick: a rotating sample)
     combos = []
